@@ -12,6 +12,8 @@ mod lexer;
 mod nodes;
 mod decode;
 mod values;
+mod dump;
+mod symm;
 mod lines;
 mod imm;
 mod memloc;
@@ -31,6 +33,8 @@ fn main() {
         Some("ops-math-op") => ops::math_op(&v),
         Some("ops-scalar-op") => ops::scalar_op(&v),
         Some("ops-search") => ops::search(&v),
+        Some("symm-search") => symm::search(&v),
+        Some("dump-search") => dump::search(&v),
         Some("values-search") => values::search(&v),
         Some("values-enum") => values::enumerate(args.get(1).and_then(|s| s.parse().ok()).unwrap_or(3), args.get(2).map(String::as_str).unwrap_or("straight")),
         Some("lines-search") => lines::search(&v),
